@@ -90,6 +90,8 @@ def init_strategy(kind):
         st.tuples(st.just("edgelist"), st.lists(edge, max_size=4)).map(list),
         st.tuples(st.just("edgedict"), st.lists(st.tuples(eid_literal, edge).map(list), max_size=4, unique_by=lambda t: repr(t[0]))).map(list),
         st.tuples(st.just("copyof"), st.lists(st.tuples(eid_literal, edge).map(list), max_size=3, unique_by=lambda t: repr(t[0]))).map(list),
+        # a fresh network whose only edge was added singly under a falsy explicit ID (0, 0.0, numpy 0)
+        st.tuples(st.just("first-explicit"), st.tuples(st.lists(n, min_size=1, max_size=3), sd).map(list), st.sampled_from(["int", "int", "float", "npint"])).map(list),
     )
 
 
@@ -103,6 +105,10 @@ def make_init(init):
         return xgi.DiHypergraph({k: (list(a), list(b)) for k, (a, b) in init[1]})
     if t == "copyof":
         return xgi.DiHypergraph(xgi.DiHypergraph({k: (list(a), list(b)) for k, (a, b) in init[1]}))
+    if t == "first-explicit":
+        H = xgi.DiHypergraph()
+        H.add_edge((list(init[1][0]), list(init[1][1])), idx=nets.ZERO[init[2]])
+        return H
     raise ValueError(t)
 
 
